@@ -375,6 +375,27 @@ class Result:
         return 1 if self.violations else 0
 
 
+def also_run(res, modname, func="run", why=""):
+    """Run the check of a component that the property also rests on (its code is among the property's anchors) and fold
+    its verdict into this one: violations count as violations of this property, known findings are repeated when they
+    are listed for this property, the work done is recorded under coverage.also_ran."""
+    import importlib
+    mod = importlib.import_module(modname)
+    sub = Result(res.prop, res.tier, res.seed)
+    getattr(mod, func)(sub)
+    res.violations += sub.violations
+    mine = {k.get("id") for k in known_findings(res.prop)}
+    for fid, what in sub.known:
+        if fid in mine and fid not in [k[0] for k in res.known]:
+            res.known.append((fid, what))
+    res.cov["obligations"] += sub.cov.get("obligations", 0)
+    res.cov["discharged"] += sub.cov.get("discharged", 0)
+    res.cov.setdefault("also_ran", {})["%s.%s" % (modname, func)] = {
+        "why": why, "obligations": sub.cov.get("obligations", 0), "discharged": sub.cov.get("discharged", 0),
+        "evaluations": sub.cov.get("evaluations", 0), "traces_validated_against_impl": sub.cov.get("traces_validated_against_impl", 0),
+        "violations": len(sub.violations), "known_findings_reproduced": [k[0] for k in sub.known]}
+
+
 TRUSTED_BASE_COMMON = [
     "Coq 8.16.1 kernel (coqc; vm_compute used for closed computations; no native_compute)",
     "no axioms declared in the development; Print Assumptions output recorded under each property theorem",
